@@ -1119,6 +1119,19 @@ class Merge3Merger:
                 )
             paths3 = change.path + (this_path,)
 
+            if (
+                not all_inventory_trees
+                and this_path is None
+                and base_path is not None
+                and other_path is not None
+                and change.kind == ("directory", "directory")
+            ):
+                # Path-based trees give directories no identity: when THIS has
+                # no such directory there is nothing to rename (the files
+                # below it are merged through their own entries). Reporting a
+                # path conflict for it would be spurious.
+                continue
+
             if all_inventory_trees:
                 this_entry = this_entries.get(this_path)
                 if this_entry is not None:
